@@ -1,3 +1,439 @@
 package main
 
-func c01one(line int, r *rec, stats map[string]int) {}
+import (
+	"bytes"
+	"encoding/binary"
+	"fmt"
+	"math/rand"
+	"os"
+	"runtime"
+	"strconv"
+	"strings"
+	"time"
+	"unsafe"
+
+	capnp "capnproto.org/go/capnp/v3"
+	"capnproto.org/go/capnp/v3/encoding/text"
+	air "capnproto.org/go/capnp/v3/internal/aircraftlib"
+	"capnproto.org/go/capnp/v3/internal/verifh/vwalk"
+	"capnproto.org/go/capnp/v3/pogs"
+	"capnproto.org/go/capnp/v3/std/capnp/schema"
+)
+
+// mirror types for pogs.Extract (same shape as the repository's own pogs tests use)
+type Z struct {
+	Which air.Z_Which
+
+	F64 float64
+	F32 float32
+	I64 int64
+	I32 int32
+	I16 int16
+	I8  int8
+	U64 uint64
+	U32 uint32
+	U16 uint16
+	U8  uint8
+
+	Bool bool
+	Text string
+	Blob []byte
+
+	F64vec  []float64
+	F32vec  []float32
+	I64vec  []int64
+	I32vec  []int32
+	I16vec  []int16
+	I8vec   []int8
+	U64vec  []uint64
+	U32vec  []uint32
+	U16vec  []uint16
+	U8vec   []uint8
+	Boolvec []bool
+	Datavec [][]byte
+	Textvec []string
+
+	Zvec    []*Z
+	Zvecvec [][]*Z
+
+	Planebase *PlaneBase
+	Airport   air.Airport
+	Grp       *ZGroup
+
+	AnyPtr    capnp.Ptr
+	AnyStruct capnp.Struct
+	AnyList   capnp.List
+}
+
+type PlaneBase struct {
+	Name     string
+	Homes    []air.Airport
+	Rating   int64
+	CanFly   bool
+	Capacity int64
+	MaxSpeed float64
+}
+
+type ZGroup struct {
+	First  uint64
+	Second uint64
+}
+
+type consumerFault struct {
+	Line     int         `json:"line"`
+	Mode     string      `json:"mode"`
+	Variant  string      `json:"variant"`
+	Consumer string      `json:"consumer"`
+	Kind     string      `json:"kind"` // panic | hang | escape
+	Detail   string      `json:"detail"`
+	Segs     [][]byte    `json:"-"`
+	SegsJ    interface{} `json:"segs"`
+}
+
+func segsJSON(segs [][]byte) interface{} {
+	out := make([]interface{}, len(segs))
+	for i, s := range segs {
+		ws := make([]interface{}, len(s)/8)
+		for w := range ws {
+			b := make([]int, 8)
+			for k := 0; k < 8; k++ {
+				b[k] = int(s[w*8+k])
+			}
+			ws[w] = b
+		}
+		out[i] = ws
+	}
+	return out
+}
+
+// run f under recover; report a panic as a fault
+func guarded(line int, mode, variant, consumer string, segs [][]byte, stats map[string]int, f func()) {
+	stats["consumer_runs"]++
+	defer func() {
+		if p := recover(); p != nil {
+			buf := make([]byte, 2048)
+			n := runtime.Stack(buf, false)
+			emit(consumerFault{Line: line, Mode: mode, Variant: variant, Consumer: consumer, Kind: "panic",
+				Detail: fmt.Sprint(p) + " | " + firstLibFrame(string(buf[:n])), SegsJ: segsJSON(segs)})
+		}
+	}()
+	f()
+}
+
+func firstLibFrame(stack string) string {
+	// first frame inside the library (not runtime, not the harness)
+	lines := bytes.Split([]byte(stack), []byte("\n"))
+	for i, l := range lines {
+		s := string(l)
+		if len(s) > 0 && s[0] != '\t' && bytes.Contains(l, []byte("capnproto.org/go/capnp/v3")) && !bytes.Contains(l, []byte("verifh")) {
+			if i+1 < len(lines) {
+				return s + " " + string(bytes.TrimSpace(lines[i+1]))
+			}
+			return s
+		}
+	}
+	return ""
+}
+
+// in-bounds check: every byte slice handed out must alias one of the supplied segments
+func inSegs(b []byte, segs [][]byte) bool {
+	if len(b) == 0 {
+		return true
+	}
+	p := uintptr(unsafe.Pointer(&b[0]))
+	for _, s := range segs {
+		if len(s) == 0 {
+			continue
+		}
+		lo := uintptr(unsafe.Pointer(&s[0]))
+		if p >= lo && p+uintptr(len(b)) <= lo+uintptr(len(s)) {
+			return true
+		}
+	}
+	return false
+}
+
+func checkEscapes(p capnp.Ptr, segs [][]byte, depth int, budget *int) string {
+	if !p.IsValid() || depth == 0 || *budget <= 0 {
+		return ""
+	}
+	*budget--
+	if s := p.Struct(); s.IsValid() {
+		for i := 0; i < int(s.Size().PointerCount) && i < 70; i++ {
+			q, err := s.Ptr(uint16(i))
+			if err == nil {
+				if r := checkEscapes(q, segs, depth-1, budget); r != "" {
+					return r
+				}
+			}
+		}
+		return ""
+	}
+	if l := p.List(); l.IsValid() {
+		k, _, _ := l.VerifShape()
+		if k == 2 {
+			if d := p.Data(); !inSegs(d, segs) {
+				return fmt.Sprintf("Data() slice of %d bytes lies outside the supplied segments", len(d))
+			}
+			if d := p.TextBytes(); !inSegs(d, segs) {
+				return fmt.Sprintf("TextBytes() slice of %d bytes lies outside the supplied segments", len(d))
+			}
+		}
+		n := l.Len()
+		if n > 70 {
+			n = 70
+		}
+		for i := 0; i < n; i++ {
+			switch k {
+			case 6:
+				q, err := capnp.PointerList{List: l}.At(i)
+				if err == nil {
+					if r := checkEscapes(q, segs, depth-1, budget); r != "" {
+						return r
+					}
+				}
+			case 7:
+				if r := checkEscapes(l.Struct(i).ToPtr(), segs, depth-1, budget); r != "" {
+					return r
+				}
+			}
+		}
+	}
+	return ""
+}
+
+var typeIDs = []uint64{air.Z_TypeID, schema.Node_TypeID, air.PlaneBase_TypeID, air.Regression_TypeID, air.HoldsText_TypeID,
+	air.Aircraft_TypeID, air.HoldsVerTwoTwoList_TypeID, air.Counter_TypeID, schema.CodeGeneratorRequest_TypeID, air.StackingRoot_TypeID}
+
+// consumers runs every read-side consumer on one presentation of one message.
+func consumers(line int, mode, variant string, segs [][]byte, limits string, stats map[string]int) {
+	mk := func() (*capnp.Message, capnp.Ptr, bool) {
+		m, err := vwalk.Message(segs, mode)
+		if err != nil {
+			return nil, capnp.Ptr{}, false
+		}
+		switch limits {
+		case "default":
+			m.TraverseLimit = 0
+			m.DepthLimit = 0
+		case "huge":
+			m.TraverseLimit = 1 << 40
+			m.DepthLimit = 6
+		}
+		root, err := m.Root()
+		if err != nil {
+			return m, capnp.Ptr{}, false
+		}
+		return m, root, true
+	}
+	tag := variant + "/" + limits
+	guarded(line, mode, tag, "walk", segs, stats, func() {
+		_, root, ok := mk()
+		if ok {
+			vwalk.Walk(root, 8)
+		}
+	})
+	if mode == "exact" {
+		guarded(line, mode, tag, "escape", segs, stats, func() {
+			m, root, ok := mk()
+			if !ok {
+				return
+			}
+			own := m.Arena.(*vwalk.ExactArena).Segs
+			budget := 2000
+			if r := checkEscapes(root, own, 8, &budget); r != "" {
+				emit(consumerFault{Line: line, Mode: mode, Variant: tag, Consumer: "escape", Kind: "escape", Detail: r, SegsJ: segsJSON(segs)})
+			}
+		})
+	}
+	guarded(line, mode, tag, "equal", segs, stats, func() {
+		_, root, ok := mk()
+		if ok {
+			capnp.Equal(root, root)
+		}
+	})
+	guarded(line, mode, tag, "canonicalize", segs, stats, func() {
+		_, root, ok := mk()
+		if ok && root.Struct().IsValid() {
+			capnp.Canonicalize(root.Struct())
+		}
+	})
+	guarded(line, mode, tag, "deepcopy", segs, stats, func() {
+		_, root, ok := mk()
+		if !ok {
+			return
+		}
+		m2, _, err := capnp.NewMessage(capnp.SingleSegment(nil))
+		if err != nil {
+			return
+		}
+		if m2.SetRoot(root) == nil {
+			if r2, err := m2.Root(); err == nil {
+				vwalk.Walk(r2, 8)
+			}
+		}
+		m3, _, _ := capnp.NewMessage(capnp.MultiSegment(nil))
+		m3.SetRoot(root)
+	})
+	for _, id := range typeIDs {
+		id := id
+		guarded(line, mode, tag, "text@"+strconv.FormatUint(id, 16), segs, stats, func() {
+			_, root, ok := mk()
+			if ok && root.Struct().IsValid() {
+				text.Marshal(id, root.Struct())
+			}
+		})
+	}
+	guarded(line, mode, tag, "pogs.Z", segs, stats, func() {
+		_, root, ok := mk()
+		if ok && root.Struct().IsValid() {
+			var z Z
+			pogs.Extract(&z, air.Z_TypeID, root.Struct())
+		}
+	})
+	guarded(line, mode, tag, "pogs.PlaneBase", segs, stats, func() {
+		_, root, ok := mk()
+		if ok && root.Struct().IsValid() {
+			var z PlaneBase
+			pogs.Extract(&z, air.PlaneBase_TypeID, root.Struct())
+		}
+	})
+}
+
+// rootDataStart returns the byte offset of the root struct's data section in segment 0 when the
+// root pointer is a near struct pointer with at least one data word in bounds, else -1.
+func rootDataStart(segs [][]byte) int {
+	if len(segs) == 0 || len(segs[0]) < 8 {
+		return -1
+	}
+	w := binary.LittleEndian.Uint64(segs[0])
+	if w&3 != 0 || w == 0 {
+		return -1
+	}
+	off := int(int32(uint32(w)) >> 2)
+	dw := int(uint16(w >> 32))
+	start := (1 + off) * 8
+	if dw == 0 || start < 0 || start+8 > len(segs[0]) {
+		return -1
+	}
+	return start
+}
+
+// hasHugeList reports whether any word, read as a list pointer, has an element count above 2^20.
+func hasHugeList(segs [][]byte) bool {
+	for _, s := range segs {
+		for i := 0; i+8 <= len(s); i += 8 {
+			w := binary.LittleEndian.Uint64(s[i:])
+			if w&3 == 1 && (w>>35) > 1<<20 {
+				return true
+			}
+		}
+	}
+	return false
+}
+
+func cloneAll(segs [][]byte) [][]byte {
+	out := make([][]byte, len(segs))
+	for i, s := range segs {
+		out[i] = append([]byte(nil), s...)
+	}
+	return out
+}
+
+var c01rng *rand.Rand
+var c01mut = 2
+var c01modes = []string{"exact", "unmarshal"}
+
+func init() {
+	seed, _ := strconv.ParseInt(os.Getenv("VERIF_SEED"), 10, 64)
+	c01rng = rand.New(rand.NewSource(seed + 77))
+	if n, err := strconv.Atoi(os.Getenv("VERIF_C01_MUT")); err == nil {
+		c01mut = n
+	}
+}
+
+func c01one(line int, r *rec, stats map[string]int) {
+	base := vwalk.SegsFromJSON(r.Segs)
+	if len(base) == 0 {
+		return
+	}
+	done := make(chan struct{})
+	var where string
+	go func() {
+		defer close(done)
+		variants := []struct {
+			name string
+			segs [][]byte
+		}{{"orig", base}}
+		// schema-directed variants: make the root look like each member of aircraftlib.Z's union
+		if st := rootDataStart(base); st >= 0 {
+			for _, w := range []uint16{1, 13, 14, 15, 20, 24, 25, 26, 29, 30, 32, 39, 40, 41, 45, 46, 47, 48} {
+				v := cloneAll(base)
+				binary.LittleEndian.PutUint16(v[0][st:], w)
+				variants = append(variants, struct {
+					name string
+					segs [][]byte
+				}{"which=" + strconv.Itoa(int(w)), v})
+			}
+		}
+		// seeded byte-level corruptions
+		for k := 0; k < c01mut; k++ {
+			v := cloneAll(base)
+			for j := 0; j < 1+c01rng.Intn(3); j++ {
+				s := c01rng.Intn(len(v))
+				if len(v[s]) == 0 {
+					continue
+				}
+				i := c01rng.Intn(len(v[s]))
+				switch c01rng.Intn(3) {
+				case 0:
+					v[s][i] ^= 1 << uint(c01rng.Intn(8))
+				case 1:
+					v[s][i] = 0xff
+				default:
+					v[s][i] = byte(c01rng.Intn(256))
+				}
+			}
+			variants = append(variants, struct {
+				name string
+				segs [][]byte
+			}{"mut" + strconv.Itoa(k), v})
+		}
+		// truncated last segment
+		if n := len(base); len(base[n-1]) >= 8 {
+			v := cloneAll(base)
+			v[n-1] = v[n-1][:len(v[n-1])-8]
+			variants = append(variants, struct {
+				name string
+				segs [][]byte
+			}{"trunc", v})
+		}
+		for _, v := range variants {
+			stats["inputs"]++
+			for _, mode := range c01modes {
+				lim := []string{"default"}
+				if v.name == "orig" || v.name == "trunc" || strings.HasPrefix(v.name, "which=") {
+					lim = []string{"default", "huge"}
+				}
+				if hasHugeList(v.segs) {
+					// with a 2^40 traversal budget a void list of 2^29 elements is legitimately
+					// allowed to cost minutes (work is bounded by T, not by the input): skip
+					lim = []string{"default"}
+				}
+				for _, l := range lim {
+					where = v.name + "/" + mode + "/" + l
+					consumers(line, mode, v.name, v.segs, l, stats)
+				}
+			}
+		}
+	}()
+	select {
+	case <-done:
+	case <-time.After(60 * time.Second):
+		buf := make([]byte, 1<<16)
+		n := runtime.Stack(buf, true)
+		emit(consumerFault{Line: line, Mode: where, Consumer: "watchdog", Kind: "hang", Detail: string(buf[:n]), SegsJ: r.Segs})
+		emit(map[string]interface{}{"summary": true, "aborted": "hang", "messages": line, "stats": stats})
+		os.Exit(3)
+	}
+}
